@@ -1,6 +1,6 @@
 (* C07 — property theorems only: each closed by [exact lemma], followed by Print Assumptions. *)
 From Coq Require Import List ZArith Bool.
-From Verif Require Import C07.Model C07.Proof C07.Equiv.
+From Verif Require Import C07.Model C07.Proof C07.Equiv C07.Deliver C07.DeliverProof C07.DeliverLink.
 Import ListNotations.
 Open Scope Z_scope.
 
@@ -84,3 +84,49 @@ Example ex_tree_runs :
   sem_run 60 ex_tree 1 = Some (RPanic 4, 2, [1009; 503; 1005; 7; -1; 1005; 7; 1001]) /\
   m_run 60 ex_tree 1 = sem_run 60 ex_tree 1.
 Proof. split; [vm_compute; reflexivity|apply trace_equiv]. Qed.
+
+(* ---- how a defer statement reaches the defer stack: the SigDefer hand-over of reExecWithFlags (Deliver.v) ----
+   skd D: the statements an activation executes, in execution order (plain / defer statement installing d / return);
+   exec_frame true l: the executor loop of the code that exists (phases of C13.Model: 5 rounds of 14 statements,
+   then blocks of 15 + single steps), exec_frame false l: the variant testing SigDefer once (`if`) in the steady half *)
+
+(* EVERY executed defer statement is registered, in order, and the activation runs up to its return statement:
+   after any number of statements, any number of earlier defers, adjacent or not, inside (unrolled) loops or not *)
+Theorem C07_every_defer_statement_registered : forall (D : Type) (pre rest : list (skd D)),
+  no_ret pre ->
+  exec_frame true (pre ++ DRet :: rest) = mkF (rev (defers_of pre)) (length pre + 1) Returned.
+Proof. exact exec_frame_all. Qed.
+Print Assumptions C07_every_defer_statement_registered.
+
+(* the phase in which the loop happens to be (how many statements the activation already executed) is irrelevant *)
+Theorem C07_defer_delivery_position_independent : forall (D : Type) (pre rest : list (skd D)) ph1 ph2 ds n,
+  no_ret pre -> deliver true ph1 (pre ++ DRet :: rest) ds n = deliver true ph2 (pre ++ DRet :: rest) ds n.
+Proof. exact deliver_phase_irrelevant. Qed.
+Print Assumptions C07_defer_delivery_position_independent.
+
+(* hence the one-step treatment of defer statements in the executor model mc_acts (the defer list a body leaves when it
+   ends normally) is exactly the defer stack the loop builds for any statement list with the same defer statements *)
+Theorem C07_defer_statements_of_body_delivered :
+  forall fx n P acts r g tr r' ds' g' tr' (l rest : list (skd dfr)) ph,
+  mc_acts fx n P acts r [] g tr = Some (RNormal, r', ds', g', tr') ->
+  no_ret l -> defers_of l = act_defers acts ->
+  f_defers (deliver true ph (l ++ DRet :: rest) [] 0) = ds' /\ f_out (deliver true ph (l ++ DRet :: rest) [] 0) = Returned.
+Proof. exact mc_acts_defers_delivered. Qed.
+Print Assumptions C07_defer_statements_of_body_delivered.
+
+(* the `if` variant loses the second of two adjacent defer statements once the activation has left the fast half
+   (70 statements, or five earlier defer statements) and returns early; at the start of a frame it does not *)
+Theorem C07_defer_delivery_if_variant_refuted :
+  exists l : list (skd nat), exists pre, l = pre ++ [DRet] /\ no_ret pre /\
+    exec_frame false l = mkF [1%nat] 72 EarlyExit /\ exec_frame true l = mkF [2%nat; 1%nat] 74 Returned.
+Proof.
+  exists if_witness, (repeat DPlain 70 ++ [DDefer 1%nat; DDefer 2%nat; DPlain]).
+  destruct if_variant_refuted as (A & B & C). repeat split; auto.
+Qed.
+Print Assumptions C07_defer_delivery_if_variant_refuted.
+
+Example C07_if_variant_needs_many_statements :
+  exec_frame false ([DDefer 1; DDefer 2; DPlain; DRet]%nat : list (skd nat)) = mkF [2; 1]%nat 4 Returned /\
+  exec_frame false ([DDefer 1; DDefer 2; DDefer 3; DDefer 4; DDefer 5; DDefer 6; DDefer 7; DRet]%nat : list (skd nat))
+  = mkF [6; 5; 4; 3; 2; 1]%nat 7 EarlyExit.
+Proof. split; [exact if_variant_fast_half_ok | exact if_variant_after_five_defers]. Qed.
